@@ -4,7 +4,7 @@ Import ListNotations.
 From NV Require Import Prog.IR.
 
 Section Sound.
-  Variable g : string.
+  Variable isg : string -> bool.
   Variable crit : string -> bool.
 
   (* has check g passed after trace t, starting from knowledge st *)
@@ -12,7 +12,7 @@ Section Sound.
     match t with
     | [] => st
     | EvEffect _ :: r => tr_st st r
-    | EvGuard g' b :: r => tr_st (st || (String.eqb g' g && b)) r
+    | EvGuard g' b :: r => tr_st (st || (isg g' && b)) r
     end.
 
   (* every critical effect of t happens when the check has passed *)
@@ -20,7 +20,7 @@ Section Sound.
     match t with
     | [] => True
     | EvEffect e :: r => (crit e = true -> st = true) /\ tr_ok st r
-    | EvGuard g' b :: r => tr_ok (st || (String.eqb g' g && b)) r
+    | EvGuard g' b :: r => tr_ok (st || (isg g' && b)) r
     end.
 
   Lemma tr_st_app st t1 t2 : tr_st st (t1 ++ t2) = tr_st (tr_st st t1) t2.
@@ -60,10 +60,10 @@ Section Sound.
 
   Lemma an_sound env s t r :
     exec env s t r ->
-    forall st, ok (an g crit s st) = true ->
+    forall st, ok (an isg crit s st) = true ->
       tr_ok st t
-      /\ (r = Fall -> fall (an g crit s st) = true -> tr_st st t = true)
-      /\ (r = Jmp -> jmp (an g crit s st) = true -> tr_st st t = true).
+      /\ (r = Fall -> fall (an isg crit s st) = true -> tr_st st t = true)
+      /\ (r = Jmp -> jmp (an isg crit s st) = true -> tr_st st t = true).
   Proof.
     induction 1 as
       [ | | | e | f | g' sh f Hp | g' sh f t r Hf Hex IH
@@ -88,7 +88,7 @@ Section Sound.
       apply andb_true_iff in Hok. destruct Hok as [Hoa Hob].
       destruct (IHa st Hoa) as (A1 & A2 & _).
       destruct (IHb _ Hob) as (B1 & B2 & B3).
-      assert (Hm : fall (an g crit a st) = true -> tr_st st t1 = true) by (intros; auto).
+      assert (Hm : fall (an isg crit a st) = true -> tr_st st t1 = true) by (intros; auto).
       repeat split.
       + apply tr_ok_app. split; [exact A1|]. eapply tr_ok_mono; [exact Hm|exact B1].
       + intros Hr Hf. rewrite tr_st_app. eapply tr_st_mono; [exact Hm|]. auto.
@@ -141,21 +141,24 @@ Section Sound.
     - (* Func not run *) cbn. repeat split; auto; discriminate.
   Qed.
 
-  Lemma tr_st_false_passed t : tr_st false t = true -> In (EvGuard g true) t.
+  Lemma tr_st_false_passed t : tr_st false t = true -> exists g, isg g = true /\ In (EvGuard g true) t.
   Proof.
     induction t as [|[e|g' b] t IH]; cbn.
     - discriminate.
-    - intros H. right. auto.
-    - destruct (String.eqb_spec g' g) as [->|Hne]; cbn.
-      + destruct b; cbn; [intros _; now left|intros H; right; auto].
-      + intros H. right. auto.
+    - intros H. destruct (IH H) as (g & Hg & Hin). exists g. auto.
+    - destruct (isg g') eqn:Eg; cbn.
+      + destruct b; cbn.
+        * intros _. exists g'. auto.
+        * intros H. destruct (IH H) as (g & Hg & Hin). exists g. auto.
+      + intros H. destruct (IH H) as (g & Hg & Hin). exists g. auto.
   Qed.
 
   (* Main theorem: if the analysis accepts s then in every execution every critical
      effect is preceded by a passed evaluation of check g. *)
   Theorem dominated_sound env s t r :
-    dominated g crit s = true -> exec env s t r ->
-    forall t1 e t2, t = (t1 ++ EvEffect e :: t2)%list -> crit e = true -> In (EvGuard g true) t1.
+    dominated isg crit s = true -> exec env s t r ->
+    forall t1 e t2, t = (t1 ++ EvEffect e :: t2)%list -> crit e = true ->
+    exists g, isg g = true /\ In (EvGuard g true) t1.
   Proof.
     intros Hd Hex t1 e t2 -> Hc.
     destruct (an_sound _ _ _ _ Hex false Hd) as (Hok & _ & _).
@@ -194,19 +197,44 @@ Section Sound.
 
   (* A request that fails check g causes no critical effect at all. *)
   Theorem failing_check_no_effect env s t r :
-    dominated g crit s = true -> exec env s t r -> env g = false ->
+    dominated isg crit s = true -> exec env s t r -> (forall g, isg g = true -> env g = false) ->
     forall e, In (EvEffect e) t -> crit e = false.
   Proof.
     intros Hd Hex Henv e Hin.
     destruct (crit e) eqn:Hc; [|reflexivity]. exfalso.
     apply in_split in Hin. destruct Hin as (t1 & t2 & ->).
-    pose proof (dominated_sound env s _ r Hd Hex t1 e t2 eq_refl Hc) as Hp.
+    destruct (dominated_sound env s _ r Hd Hex t1 e t2 eq_refl Hc) as (g & Hg & Hp).
     assert (Hin' : In (EvGuard g true) (t1 ++ EvEffect e :: t2)) by (apply in_app_iff; now left).
-    apply (exec_guard_env _ _ _ _ Hex) in Hin'. congruence.
+    apply (exec_guard_env _ _ _ _ Hex) in Hin'. rewrite (Henv g Hg) in Hin'. discriminate.
   Qed.
 End Sound.
 
 (* lifted to handler tables: handler_ok means every listed check dominates *)
+Theorem handler_ok_with_sound fuel prog noinl gs crit h body env t r :
+  handler_ok_with fuel prog noinl gs crit h = true ->
+  lookup prog h = Some body ->
+  exec env (inline_with fuel prog noinl body) t r ->
+  forall isg, In isg gs -> (forall g, isg g = true -> env g = false) ->
+  forall e, In (EvEffect e) t -> crit e = false.
+Proof.
+  unfold handler_ok_with. intros Hok Hl Hex isg Hg Henv e Hin. rewrite Hl in Hok.
+  rewrite forallb_forall in Hok. specialize (Hok isg Hg).
+  eapply failing_check_no_effect; eauto.
+Qed.
+
+Theorem handler_ok_with_order fuel prog noinl gs crit h body env t r :
+  handler_ok_with fuel prog noinl gs crit h = true ->
+  lookup prog h = Some body ->
+  exec env (inline_with fuel prog noinl body) t r ->
+  forall isg, In isg gs ->
+  forall t1 e t2, t = (t1 ++ EvEffect e :: t2)%list -> crit e = true ->
+  exists g, isg g = true /\ In (EvGuard g true) t1.
+Proof.
+  unfold handler_ok_with. intros Hok Hl Hex isg Hg. rewrite Hl in Hok.
+  rewrite forallb_forall in Hok. specialize (Hok isg Hg).
+  eapply dominated_sound; eauto.
+Qed.
+
 Theorem handler_ok_sound fuel prog gs crit h body env t r :
   handler_ok fuel prog gs crit h = true ->
   lookup prog h = Some body ->
@@ -214,19 +242,8 @@ Theorem handler_ok_sound fuel prog gs crit h body env t r :
   forall g, In g gs -> env g = false ->
   forall e, In (EvEffect e) t -> crit e = false.
 Proof.
-  unfold handler_ok. intros Hok Hl Hex g Hg Henv e Hin. rewrite Hl in Hok.
-  rewrite forallb_forall in Hok. specialize (Hok g Hg).
-  eapply failing_check_no_effect; eauto.
-Qed.
-
-Theorem handler_ok_order fuel prog gs crit h body env t r :
-  handler_ok fuel prog gs crit h = true ->
-  lookup prog h = Some body ->
-  exec env (inline fuel prog body) t r ->
-  forall g, In g gs ->
-  forall t1 e t2, t = (t1 ++ EvEffect e :: t2)%list -> crit e = true -> In (EvGuard g true) t1.
-Proof.
-  unfold handler_ok. intros Hok Hl Hex g Hg. rewrite Hl in Hok.
-  rewrite forallb_forall in Hok. specialize (Hok g Hg).
-  eapply dominated_sound; eauto.
+  unfold handler_ok, inline. intros Hok Hl Hex g Hg Henv e Hin.
+  eapply (handler_ok_with_sound _ _ _ _ _ _ _ _ _ _ Hok Hl Hex (String.eqb g)); eauto.
+  - apply in_map. exact Hg.
+  - intros g' Hg'. apply String.eqb_eq in Hg'. subst. exact Henv.
 Qed.
